@@ -76,11 +76,15 @@ def load_crate(path, prefix, renames=None, known_ids=None):
     doc = json.loads(raw)
     inlined = []
     if known_ids is not None:
-        from .inline import inline_new_helpers, desugar_internal_iteration
+        from .inline import inline_new_helpers, desugar_internal_iteration, thread_known_discriminants
+        threaded = thread_known_discriminants(doc)          # part of both views (raw and inlined)
         inlined = inline_new_helpers(doc, known_ids)
         inlined += desugar_internal_iteration(doc)
+        if inlined:
+            threaded += thread_known_discriminants(doc)     # a spliced helper's `return Err(..)` followed by the caller's `?`
     c = Crate(doc, prefix)
     c.inlined = inlined
+    c.threaded = threaded if known_ids is not None else []
     return c
 
 
